@@ -117,7 +117,7 @@ pub fn c08_repr_n2() {
 }
 
 // Every arc-weighted digraph on 3 vertices, weights -4..=8, no negative circuit (assumed via the oracle).
-// @verif prop=C08 tier=thorough fl=f2 role=dense/array t=3600 mem=24
+// @verif prop=C08 tier=thorough fl=f2 role=dense/array t=3600 mem=16
 #[cfg_attr(kani, kani::proof)]
 #[cfg_attr(kani, kani::unwind(11))]
 pub fn c08_dense_n3() {
@@ -125,7 +125,7 @@ pub fn c08_dense_n3() {
 }
 
 // Through AdjacencyListWeighted<isize> (map model), 3 vertices.
-// @verif prop=C08 tier=thorough fl=f2 feat=map4 role=dense/repr t=3600 mem=30
+// @verif prop=C08 tier=exp fl=f2 feat=map4 role=dense/repr t=3600 mem=30
 #[cfg_attr(kani, kani::proof)]
 #[cfg_attr(kani, kani::unwind(11))]
 pub fn c08_repr_n3() {
